@@ -369,3 +369,27 @@ def run(ctx):
 
     with ctx.rule("C20.R7", "T5", "named arguments are passed in their parameters' positions (no two flags or ids change places at a call site)", floor=3) as r:
         named_argument_rule(ctx, r, [("swimos_runtime", "swimos_runtime::agent::reporting"), ("swimos_runtime", "swimos_runtime::agent::task::links"), ("swimos_introspection", "swimos_introspection::")], allow={("saturating_add", "n"): "commutative helper", ("add_descendant", "node"): "receiver"})
+
+    with ctx.rule("C20.R9", "T5", "a failing lane is reported as a failed lane (so that its links are released), a failing store as a failed store", floor=4) as r:
+        # ResponseReceiver::poll_next turns an error of an item's response channel into Failed::Lane(id) or Failed::Store(id). Only Failed::Lane
+        # reaches WriteTaskState::remove_lane, which drops the lane's links, corrects the counts and sends `unlinked`; Failed::Store is only logged.
+        import re as _re
+        _rt = ctx.crate("swimos_runtime")
+        pn = [b for b in _rt.all_bodies() if "receiver::ResponseReceiver" in b.defpath and b.defpath.endswith("poll_next")]
+        if len(pn) != 1:
+            raise AnchorMissing("ResponseReceiver::poll_next")
+        pn = ctx.saw(pn[0])
+        tab = {}
+        for i, j, p_, rv, line in pn.assigns():
+            m_ = _re.match(r"^Failed::(Lane|Store)\(", describe_rvalue(pn, rv))
+            if m_:
+                for dd, l, _ in dom_guards(pn, i):
+                    if dd.startswith("disc(get_mut(self)") and dd.endswith("))") and l in ("ValueLikeLane", "MapLane", "SupplyLane", "ValueStore", "MapStore"):
+                        tab.setdefault(l, set()).add(m_.group(1))
+        kinds = [v["name"] for v in _rt.adt("receiver::ResponseReceiver")["variants"]]
+        for k_ in kinds:
+            want = "Store" if k_.endswith("Store") else "Lane"
+            r.check(tab.get(k_) == {want}, "ResponseReceiver::poll_next/%s=>Failed::%s" % (k_, want), where(pn), "an error of a %s is reported as Failed::%s" % (k_, want),
+                    "an error of a %s is reported as %s: %s" % (k_, sorted("Failed::" + x for x in tab.get(k_, ())) or "nothing",
+                        "the lane's links are never released - its reporter keeps the old count, the aggregate stays too high and the linked remotes are never sent `unlinked`" if want == "Lane" else "a store failure would tear down a lane with the same id"))
+
